@@ -261,7 +261,17 @@ EmitMove:
           uint32_t alt_id = wd._phys_to_var_id[out_id];
           Var& alt_var = ctx._vars[alt_id];
 
-          if (!alt_var.out.is_initialized() || (alt_var.out.is_reg() && alt_var.out.reg_id() == cur_id)) {
+          // A mutual swap is resolved immediately, a longer cycle once a whole pass made no progress (every swap or
+          // scratch move puts at least one more variable into its final register).
+          bool is_mutual_swap = alt_var.out.is_reg() && alt_var.out.reg_id() == cur_id;
+          bool is_stuck_cycle = (work_flags & kWorkPostponed) != 0 && alt_var.out.is_reg() && !alt_var.is_done();
+
+          if (!alt_var.out.is_initialized() || is_mutual_swap || is_stuck_cycle) {
+            // Break only one link of a stuck cycle per pass, plain moves can then resolve the rest.
+            if (is_stuck_cycle && !is_mutual_swap) {
+              work_flags &= ~uint32_t(kWorkPostponed);
+            }
+
             // Only few architectures provide swap operations, and only for few register groups.
             if (arch_traits.has_inst_reg_swap(cur_group)) {
               RegType highest_type = Support::max(cur.reg_type(), alt_var.cur.reg_type());
@@ -272,13 +282,30 @@ EmitMove:
               OperandSignature signature = RegUtils::signature_of(highest_type);
               ASMJIT_PROPAGATE(emit_reg_swap(Reg(signature, out_id), Reg(signature, cur_id)));
 
+              // A swapped value that must still be sign or zero extended stays pending - the next pass extends it in place.
+              auto needs_extension = [](const Var& v) noexcept {
+                return TypeUtils::is_int(v.out.type_id()) && TypeUtils::is_int(v.cur.type_id()) &&
+                       TypeUtils::size_of(v.out.type_id()) > TypeUtils::size_of(v.cur.type_id());
+              };
+
               wd.swap(var_id, cur_id, alt_id, out_id);
               cur.set_reg_id(out_id);
-              var.mark_done();
               alt_var.cur.set_reg_id(cur_id);
 
+              if (!needs_extension(var)) {
+                var.mark_done();
+              }
+              else {
+                work_flags |= kWorkPending;
+              }
+
               if (alt_var.out.is_initialized()) {
-                alt_var.mark_done();
+                if (!is_mutual_swap || needs_extension(alt_var)) {
+                  work_flags |= kWorkPending;
+                }
+                else {
+                  alt_var.mark_done();
+                }
               }
               work_flags |= kWorkDidSome;
             }
